@@ -186,10 +186,10 @@ func VH_C19_forEachCloserExact() bool {
 	return true
 }
 
-//verif: unwind=24 cover=some-match map_perm_max=1 bounds="locus and 0..2 (quick) / 0..3 (thorough) distinct entry keys of 1 byte, prefix 1 byte, nbits 0..8: ForEachMatching yields exactly the entries sharing the first nbits bits with the prefix"
+//verif: unwind=24 cover=some-match map_perm_max=1 bounds="locus and 0..1 (quick) / 0..2 (thorough) distinct entry keys of 1 byte, prefix 1 byte, nbits 0..8: ForEachMatching yields exactly the entries sharing the first nbits bits with the prefix"
 func VH_C19_forEachMatchingExact() bool {
 	locus := vBytesN(1)
-	n := vInt(0, vMaxEntries())
+	n := vInt(0, vMaxEntries()-1)
 	c, keys := vBuildCache(locus, n, 1)
 	prefix := vBytesN(1)
 	nbits := vInt(0, 8)
